@@ -2,6 +2,7 @@ package mon
 
 import (
 	"fmt"
+	"strings"
 
 	"verif/harness/core"
 	"verif/harness/obs"
@@ -36,6 +37,11 @@ func c04Case(c *core.Ctx, pc parseCase) {
 		c04Prev.fp = obs.Fingerprint(pr.Root, false)
 	}
 	if pr.Panic != nil {
+		if pr.Panic.Verif && strings.Contains(pr.Panic.Msg, "token order violated") {
+			// the online monitor in the parser's Lex hook: a token was delivered that starts before the previous one ended
+			c.Violation("tok|online-order-hook|"+fmt.Sprintf("fam%d", obs.Fam(pc.Ver)), "the parser hook saw a token delivered out of order: "+pr.Panic.Msg, core.W(pc.Src, pc.Ver))
+			return
+		}
 		c.Add("parses_that_panicked(C01's business)", 1)
 		return
 	}
